@@ -615,7 +615,25 @@ func runC04Generated(t *testing.T, registry map[int]lexer.Definition, dataFile s
 			if strings.Contains(in, "\n") && multiByte && len(g.toks) >= 3 {
 				r.NonTrivial(inHex+"|"+d.RS.String(), func() any { return map[string]any{"kind": "generated", "rules_text": d.RS.String(), "input_hex": inHex} })
 			}
-			if errs := lexgen.ValidateTokens(in, "f", g.toks, !d.RS.HasLowerCase()); len(errs) > 0 {
+			errs := lexgen.ValidateTokens(in, "f", g.toks, !d.RS.HasLowerCase())
+			if bd, ok := gen.(lexer.BytesDefinition); ok && len(errs) == 0 {
+				// the same through LexBytes; the tokens stay what they were when the caller reuses its buffer afterwards
+				buf := []byte(in)
+				if l, err := bd.LexBytes("f", buf); err == nil {
+					toks, err := lexer.ConsumeAll(l)
+					for i := range buf {
+						buf[i] = '#'
+					}
+					if err == nil {
+						r.Count("lexbytes_then_buffer_reused")
+						errs = lexgen.ValidateTokens(in, "f", toks, !d.RS.HasLowerCase())
+						for i := range errs {
+							errs[i] = "LexBytes, after the caller overwrote its buffer: " + errs[i]
+						}
+					}
+				}
+			}
+			if len(errs) > 0 {
 				failed = true
 				c := map[string]any{"kind": "generated", "rules": d.RS, "input_hex": inHex, "filename": "f", "entry": "string", "rules_text": d.RS.String()}
 				b, _ := json.Marshal(c)
